@@ -37,10 +37,11 @@ try:
     def run_demo(tag):
         if demo == "demo.c":
             txt = open(os.path.join(src, "demo.c")).read()
-            extra = ""
+            import re as _re
+            extra = " ".join(sorted(set(_re.findall(r"-Wl,--wrap=[\w,=-]+", "\n".join(txt.splitlines()[:80])))))
             for l in txt.splitlines()[:60]:
                 if "EXTRA_CFLAGS:" in l:
-                    extra = l.split("EXTRA_CFLAGS:")[1].strip().rstrip("*/").strip()
+                    extra += " " + l.split("EXTRA_CFLAGS:")[1].strip().rstrip("*/").strip()
             cmd = (f"cd {src} && cc -O1 -g -w -D_GNU_SOURCE {inc} {extra} demo.c {wt}/_b/libaws-c-common.a -lpthread -ldl -lm -o /tmp/sc/{name}.demo "
                    f"&& timeout 600 /tmp/sc/{name}.demo")
         else:
